@@ -1376,8 +1376,63 @@ func limitScenario(name string, seed int64) Scenario {
 	}}
 }
 
+// limitEarlyScenario: the FIRST frame of a session opened directly on a stream transport is above the limit, and it arrives while
+// the handshaking goroutine is still busy - held in the application's connection handler, or inside the constructor (flush /
+// drain of the open packet). The limit must be in force from the moment the transport's reader runs.
+func limitEarlyScenario(name, kind, point string, factor int) Scenario {
+	return Scenario{Name: name, Run: func(t *testing.T, rec *Rec, g *Gates) {
+		limit := int64(200)
+		cfg := EngCfg{MaxBuf: limit, WT: true}
+		w := newEngWorld(t, rec, g, cfg)
+		sc := &Script{w: w, r: rand.New(rand.NewSource(1)), cfg: EngCfg{PI: 25 * time.Second, PT: 20 * time.Second}, W: map[string]int{}}
+		sc.newSession() // canary (polling)
+		sc.settle()
+		can := sc.ss[0]
+		if point == "L.connection" {
+			w.Hook("connection", func(sid string, _ ...any) {
+				if sid != can.S.Sid {
+					g.at("L.connection", sid)
+				}
+			})
+		}
+		g.Park(point, true)
+		s := &Sess{Proto: 4}
+		c := &cliSess{S: s, Kind: "websocket", autoPong: true}
+		if kind == "webtransport" {
+			c.ws = w.DialWT(s, func(wc *WSClient, p Pkt) { sc.processPkts(c, []Pkt{p}, wc) })
+		} else {
+			c.ws = w.DialWS(s, "", nil, func(wc *WSClient, p Pkt) { sc.processPkts(c, []Pkt{p}, wc) })
+		}
+		sc.ss = append(sc.ss, c)
+		sc.settle()
+		g.Park(point, false)
+		if !c.ws.closed {
+			if s.Sid != "" {
+				w.Cause(s.Sid, "error")
+			}
+			m := w.ClientMsg(int(limit)*factor, false, 0)
+			rec.Log("c10.frame", "sid", s.Sid, "size", len(m.Data)+1, "limit", limit, "upgraded", false)
+			c.ws.SendPkt(m)
+			sc.settle()
+		}
+		g.ReleaseAll()
+		sc.settle()
+		c.dead = true
+		sc.canaryRoundTrip(can)
+		sc.Drain()
+		w.Finish()
+	}}
+}
+
 func limitFamily(seed int64, n int) []Scenario {
 	var out []Scenario
+	for _, kind := range []string{"websocket", "webtransport"} {
+		for _, point := range []string{"L.connection", "S.flush", "S.drain", "handshake.constructed"} {
+			for _, f := range []int{2, 40} {
+				out = append(out, limitEarlyScenario(fmt.Sprintf("limitearly_%s_%s_x%d", kind, shortPoint(point), f), kind, point, f))
+			}
+		}
+	}
 	for i := 0; i < n; i++ {
 		out = append(out, limitScenario(fmt.Sprintf("limit%d_%d", seed, i), seed*1000037+int64(i)))
 	}
